@@ -3230,6 +3230,12 @@ func (gbi *groupByIterator) nextAtIdx(i int) {
 		}
 		if wrapped && i != 0 {
 			gbi.nextAtIdx(i - 1)
+			if gbi.done {
+				// The fields to the left are exhausted: without this the
+				// loop below spins forever when no row of this field
+				// intersects the last row of the previous field.
+				return
+			}
 		}
 		if i == 0 && gbi.filter != nil {
 			gbi.rows[i].row = nr.Intersect(gbi.filter)
